@@ -529,6 +529,21 @@ func IntOp(name string, bits int, x, y *sym.Term) *sym.Term {
 		if y.Sort == sym.Bool && one(x) {
 			return y
 		}
+		// parity of the canonical representative: limb 0 & 1
+		for _, pr := range [][2]*sym.Term{{x, y}, {y, x}} {
+			l, o := pr[0], pr[1]
+			if one(o) && l.Op == "limb" && l.Args[0].Op[:min(7, len(l.Args[0].Op))] == "int_of:" {
+				if k, ok := l.Args[1].Int64(); ok && k == 0 {
+					return sym.App(sym.Bool, "odd", sym.Canon(l.Args[0].Args[0]))
+				}
+			}
+			// last byte of a canonical big-endian encoding & 1
+			if one(o) && l.Op == "byteat" && (l.Args[0].Op == "fp_bytes" || l.Args[0].Op == "fn_bytes") {
+				if k, ok := l.Args[1].Int64(); ok && k == 31 {
+					return sym.App(sym.Bool, "odd", sym.Canon(l.Args[0].Args[0]))
+				}
+			}
+		}
 	case "shl", "shr":
 		if zero(y) {
 			return x
